@@ -2,7 +2,7 @@
 //!
 //! A `Probe<Op>` operator (public `Operator` trait, inserted with the public `Stream::add_operator`;
 //! for keyed streams through the public field `KeyedStream.0`) forwards every element unchanged and
-//! records the KIND of every element its `next()` returns (I, T, W, FB, FAR, TERM; run-length
+//! records the KIND of every element its `next()` returns (I, T<ts>, W<ts>, FB, FAR, TERM; run-length
 //! compressed) under `(run, probe id, replica coordinate)`; the coordinate is read from the
 //! `ExecutionMetadata` in `setup`. A generator builds random pipelines through the public API with a
 //! probe after every operator the API lets us get behind: right after the source, after every
@@ -11,9 +11,11 @@
 //! directly after `Replay` / `Iterate` and directly in front of the loop's own fold + `IterationEnd`),
 //! on the state and items streams of the loops and directly in front of every sink.
 //!
-//! header: `probe <config> <batch> <iter|par> <n> <nots|ts<k>> <vec|vec1|foreach|count>`
+//! header: `probe <config> <batch> <iter|par> <n> <nots|ts<k>[:<late>[:<jit>]]> <vec|vec1|foreach|count>`
 //!   config `L<cores>` | `R<c0>:<c1>` (in-process hosts over loopback TCP, see `nvh::e2e::run_hosts`)
-//!   batch  `def|single|f<n>|a<n>:<ms>`; `ts<k>`: `add_timestamps` right after the source, watermark
+//!   batch  `def|single|f<n>|a<n>:<ms>`; `ts<k>:<late>:<jit>`: `add_timestamps` right after the source (see
+//!   `add_ts`: contract-respecting timestamps, possibly out of order, a watermark `ts - late` after every k-th element);
+//!   switch `--ts`: generator biased towards timestamped pipelines (C06); watermark
 //!   after every k-th element
 //! ops (every subset of the op lines is a valid case: the builder repairs what a stage needs —
 //!   `shuffle(auto)` in front of a loop / at the end of an `iterate` body / to equalise the two sides of a
@@ -25,7 +27,7 @@
 //! outputs:
 //!   `p <probe id> <position> <replica> <sequence>`  position = `after:<operator>` outside loops,
 //!       `after:<operator>/in-loop:<l1>.<l2>` inside the body of loop l2 nested in l1; replica =
-//!       `b<block>h<host>r<replica>`; sequence = comma separated kinds, `K*n` = n times K, `-` = empty
+//!       `b<block>h<host>r<replica>`; sequence = comma separated tokens `I`, `T<ts>`, `W<ts>`, `FB`, `FAR`, `TERM`; `tok*n` = n times, `-` = empty
 //!   `loop <id> <kind> <parent|-> <max> <stop> execs <e> rounds <r> calls <c>`  e = number of final states
 //!       seen on the loop's state stream, r = sum of their round counters, c = calls of loop_condition
 //!   `blocked` (30 s watchdog; 10 s in the region of the known C04 findings F17/F18, see `f18_region`) | `panic:<class>` | `infra`
@@ -48,7 +50,8 @@ use renoir::{ExecutionMetadata, IterationStateHandle, KeyedStream, Replication, 
 // ------------------------------------------------------------------------------------------------
 // the probe
 
-type Rec = Arc<Mutex<Vec<(u8, u32)>>>;
+/// (kind, timestamp (0 for kinds without one), repetitions)
+type Rec = Arc<Mutex<Vec<(u8, i64, u32)>>>;
 /// (run, probe id, (block, host, replica)) -> run-length compressed kinds
 static RECS: Mutex<BTreeMap<(u64, usize, (u64, u64, u64)), Rec>> = Mutex::new(BTreeMap::new());
 /// run -> probe id -> position
@@ -60,14 +63,14 @@ static PANICS: Mutex<Vec<String>> = Mutex::new(Vec::new());
 
 const KINDS: [&str; 6] = ["I", "T", "W", "FB", "FAR", "TERM"];
 
-fn kind_of<T>(e: &StreamElement<T>) -> u8 {
+fn kind_of<T>(e: &StreamElement<T>) -> (u8, i64) {
     match e {
-        StreamElement::Item(_) => 0,
-        StreamElement::Timestamped(_, _) => 1,
-        StreamElement::Watermark(_) => 2,
-        StreamElement::FlushBatch => 3,
-        StreamElement::FlushAndRestart => 4,
-        StreamElement::Terminate => 5,
+        StreamElement::Item(_) => (0, 0),
+        StreamElement::Timestamped(_, t) => (1, *t),
+        StreamElement::Watermark(t) => (2, *t),
+        StreamElement::FlushBatch => (3, 0),
+        StreamElement::FlushAndRestart => (4, 0),
+        StreamElement::Terminate => (5, 0),
     }
 }
 
@@ -101,12 +104,12 @@ impl<Op: Operator> Operator for Probe<Op> {
 
     fn next(&mut self) -> StreamElement<Op::Out> {
         let e = self.prev.next();
-        let k = kind_of(&e);
+        let (k, t) = kind_of(&e);
         if let Some(rec) = &self.rec {
             let mut g = rec.lock().unwrap();
             match g.last_mut() {
-                Some((lk, n)) if *lk == k => *n += 1,
-                _ => g.push((k, 1)),
+                Some((lk, lt, n)) if *lk == k && *lt == t => *n += 1,
+                _ => g.push((k, t, 1)),
             }
         }
         e
@@ -213,6 +216,9 @@ struct St {
     rep: Rep,
     /// the stream may carry Timestamped / Watermark elements
     ts: bool,
+    /// every data element is Timestamped for sure (event-time operators can use the timestamps that
+    /// are already there)
+    pure: bool,
 }
 
 #[derive(Default)]
@@ -251,16 +257,16 @@ impl B {
     }
 
     fn cap(&mut self, st: St, limit: usize) -> St {
-        St { s: self.probe(st.s.add_operator(|prev| Cap { prev, limit, seen: 0 }), "cap(user-defined)"), rep: st.rep, ts: st.ts }
+        St { s: self.probe(st.s.add_operator(|prev| Cap { prev, limit, seen: 0 }), "cap(user-defined)"), rep: st.rep, ts: st.ts, pure: st.pure }
     }
 
     fn shuffle_auto(&mut self, st: St) -> St {
-        St { s: self.probe(st.s.shuffle(), "shuffle(auto)"), rep: Rep::U, ts: st.ts }
+        St { s: self.probe(st.s.shuffle(), "shuffle(auto)"), rep: Rep::U, ts: st.ts, pure: st.pure }
     }
 
     fn drop_ts_auto(&mut self, st: St) -> St {
         if st.ts {
-            St { s: self.probe(st.s.drop_timestamps(), "drop_timestamps(auto)"), rep: st.rep, ts: false }
+            St { s: self.probe(st.s.drop_timestamps(), "drop_timestamps(auto)"), rep: st.rep, ts: false, pure: false }
         } else {
             st
         }
@@ -275,38 +281,67 @@ fn p_usize(w: &[String], i: usize, default: usize, lo: usize, hi: usize) -> usiz
     w.get(i).and_then(|s| s.parse::<usize>().ok()).unwrap_or(default).clamp(lo, hi)
 }
 
-/// per-replica monotone timestamps `10*c + jitter` (c = 1, 2, … counts the elements of the replica),
-/// a watermark `10*c - 1` after every k-th element: every later element has a larger timestamp
-fn add_ts(b: &mut B, st: St, k: usize, jitter: bool, what: &str) -> St {
+/// Contract-respecting timestamps and watermarks per replica: the c-th element (c = 1, 2, …) of a
+/// replica gets `2*c + j`, `j = x mod 4` with `jit` (out of order by up to 3) or 0; after every k-th
+/// element a watermark `min(ts - late, 2*c + 1)` is emitted if it is larger than the previous one.
+/// Every later element has a timestamp `>= 2*(c+1)`, i.e. above every watermark emitted so far; with
+/// `late = 0` the watermark sits right at the element's timestamp.
+fn add_ts(b: &mut B, st: St, k: usize, late: i64, jit: bool, what: &str) -> St {
     let st = b.drop_ts_auto(st);
     let k = k.max(1) as i64;
     let mut c = 0i64;
     let mut c2 = 0i64;
+    let mut last_w = i64::MIN;
     let s = st.s.add_timestamps(
         move |x: &i64| {
             c += 1;
-            10 * c + if jitter { x.rem_euclid(4) * 7 } else { 0 }
+            2 * c + if jit { x.rem_euclid(4) } else { 0 }
         },
-        move |_x: &i64, _t: &i64| {
+        move |_x: &i64, t: &i64| {
             c2 += 1;
-            if c2 % k == 0 {
-                Some(10 * c2 - 1)
+            let w = (*t - late).min(2 * c2 + 1);
+            if c2 % k == 0 && w > last_w {
+                last_w = w;
+                Some(w)
             } else {
                 None
             }
         },
     );
-    St { s: b.probe(s, what), rep: st.rep, ts: true }
+    St { s: b.probe(s, what), rep: st.rep, ts: true, pure: true }
+}
+
+/// `ts<k>[:<late>[:<jit>]]`
+fn parse_tsgen(s: &str) -> Option<(usize, i64, bool)> {
+    let r = s.strip_prefix("ts")?;
+    let mut it = r.split(':');
+    let k = it.next()?.parse::<usize>().ok()?.clamp(1, 50);
+    let late = it.next().and_then(|x| x.parse::<i64>().ok()).unwrap_or(1).clamp(0, 3);
+    let jit = it.next().map(|x| x == "1").unwrap_or(false);
+    Some((k, late, jit))
+}
+
+/// stages that turn Timestamped input into Timestamped output and forward or merge watermarks
+const TS_PRESERVING: &[&str] =
+    &["map", "filter", "flatmap", "inspect", "richmap", "stmap", "shuffle", "bcast", "repl", "fold", "folda", "reduce", "reducea"];
+
+fn apply(b: &mut B, st: St, w: &[String], state: Option<&IterationStateHandle<LState>>) -> St {
+    let pure_in = st.pure;
+    let mut out = apply_inner(b, st, w, state);
+    if TS_PRESERVING.contains(&w[0].as_str()) {
+        out.pure = pure_in && out.ts;
+    }
+    out
 }
 
 /// one simple stage; `state`: the state handle of the innermost enclosing loop
-fn apply(b: &mut B, st: St, w: &[String], state: Option<&IterationStateHandle<LState>>) -> St {
+fn apply_inner(b: &mut B, st: St, w: &[String], state: Option<&IterationStateHandle<LState>>) -> St {
     let in_loop = !b.path.is_empty();
     let name = w[0].as_str();
-    let St { s, rep, ts } = st;
+    let St { s, rep, ts, pure } = st;
     match name {
-        "map" => St { s: b.probe(s.map(|x: i64| (x.wrapping_mul(3) + 1).rem_euclid(MODV)), "map"), rep, ts },
-        "filter" => St { s: b.probe(s.filter(|x: &i64| x.rem_euclid(3) != 0), "filter"), rep, ts },
+        "map" => St { s: b.probe(s.map(|x: i64| (x.wrapping_mul(3) + 1).rem_euclid(MODV)), "map"), rep, ts, pure: false },
+        "filter" => St { s: b.probe(s.filter(|x: &i64| x.rem_euclid(3) != 0), "filter"), rep, ts, pure: false },
         "flatmap" => St {
             s: b.probe(
                 s.flat_map(|x: i64| match x.rem_euclid(3) {
@@ -318,8 +353,9 @@ fn apply(b: &mut B, st: St, w: &[String], state: Option<&IterationStateHandle<LS
             ),
             rep,
             ts,
+            pure: false,
         },
-        "inspect" => St { s: b.probe(s.inspect(|_x: &i64| {}), "inspect"), rep, ts },
+        "inspect" => St { s: b.probe(s.inspect(|_x: &i64| {}), "inspect"), rep, ts, pure: false },
         "richmap" => {
             let mut c = 0i64;
             St {
@@ -332,34 +368,35 @@ fn apply(b: &mut B, st: St, w: &[String], state: Option<&IterationStateHandle<LS
                 ),
                 rep,
                 ts,
+                pure: false,
             }
         }
         "stmap" => match state {
             Some(h) => {
                 let h = h.clone();
-                St { s: b.probe(s.map(move |x: i64| (x + h.get().1.rem_euclid(7)).rem_euclid(MODV)), "map(state)"), rep, ts }
+                St { s: b.probe(s.map(move |x: i64| (x + h.get().1.rem_euclid(7)).rem_euclid(MODV)), "map(state)"), rep, ts, pure: false }
             }
-            None => St { s: b.probe(s.map(|x: i64| (x + 1).rem_euclid(MODV)), "map"), rep, ts },
+            None => St { s: b.probe(s.map(|x: i64| (x + 1).rem_euclid(MODV)), "map"), rep, ts, pure: false },
         },
-        "shuffle" => St { s: b.probe(s.shuffle(), "shuffle"), rep: Rep::U, ts },
+        "shuffle" => St { s: b.probe(s.shuffle(), "shuffle"), rep: Rep::U, ts, pure: false },
         "bcast" => {
             let s = b.probe(s.broadcast(), "broadcast");
             // inside loop bodies the copies are thinned out again (an `iterate` would multiply the
             // data by the number of replicas in every round)
             let s = if in_loop { b.probe(s.filter(|x: &i64| x.rem_euclid(4) == 0), "filter") } else { s };
-            b.cap(St { s, rep: Rep::U, ts }, 400)
+            b.cap(St { s, rep: Rep::U, ts, pure: false }, 400)
         }
         "repl" => {
             // Limited(k) / Host over a forward link only from an unlimited block (F8: a block with more
             // replicas than its only-one producer has replicas without producer)
             let want = w.get(1).map(|s| s.as_str()).unwrap_or("one");
             match (want, rep) {
-                ("2", Rep::U) if !in_loop => St { s: b.probe(s.replication(Replication::new_limited(2)), "replication(2)"), rep: Rep::L2, ts },
-                ("host", Rep::U) if !in_loop => St { s: b.probe(s.replication(Replication::new_host()), "replication(host)"), rep: Rep::Host, ts },
-                _ => St { s: b.probe(s.replication(Replication::One), "replication(one)"), rep: Rep::One, ts },
+                ("2", Rep::U) if !in_loop => St { s: b.probe(s.replication(Replication::new_limited(2)), "replication(2)"), rep: Rep::L2, ts, pure: false },
+                ("host", Rep::U) if !in_loop => St { s: b.probe(s.replication(Replication::new_host()), "replication(host)"), rep: Rep::Host, ts, pure: false },
+                _ => St { s: b.probe(s.replication(Replication::One), "replication(one)"), rep: Rep::One, ts, pure: false },
             }
         }
-        "fold" => St { s: b.probe(s.fold(0i64, |a: &mut i64, x: i64| *a = (*a + x).rem_euclid(MODV)), "fold"), rep: Rep::One, ts },
+        "fold" => St { s: b.probe(s.fold(0i64, |a: &mut i64, x: i64| *a = (*a + x).rem_euclid(MODV)), "fold"), rep: Rep::One, ts, pure: false },
         "folda" => St {
             s: b.probe(
                 s.fold_assoc(0i64, |a: &mut i64, x: i64| *a = (*a + x).rem_euclid(MODV), |a: &mut i64, x: i64| *a = (*a + x).rem_euclid(MODV)),
@@ -367,43 +404,44 @@ fn apply(b: &mut B, st: St, w: &[String], state: Option<&IterationStateHandle<LS
             ),
             rep: Rep::One,
             ts,
+            pure: false,
         },
-        "reduce" => St { s: b.probe(s.reduce(|a: i64, x: i64| (a + x).rem_euclid(MODV)), "reduce"), rep: Rep::One, ts },
-        "reducea" => St { s: b.probe(s.reduce_assoc(|a: i64, x: i64| (a + x).rem_euclid(MODV)), "reduce_assoc"), rep: Rep::One, ts },
+        "reduce" => St { s: b.probe(s.reduce(|a: i64, x: i64| (a + x).rem_euclid(MODV)), "reduce"), rep: Rep::One, ts, pure: false },
+        "reducea" => St { s: b.probe(s.reduce_assoc(|a: i64, x: i64| (a + x).rem_euclid(MODV)), "reduce_assoc"), rep: Rep::One, ts, pure: false },
         "kfold" => {
             let k = b.probe_k(s.group_by(key3), "group_by");
             let k = b.probe_k(k.inspect(|_kv: &(i64, i64)| {}), "keyed-inspect");
             let k = b.probe_k(k.fold(0i64, |a: &mut i64, x: i64| *a = (*a + x).rem_euclid(MODV)), "keyed-fold");
-            St { s: b.probe(k.drop_key(), "drop_key"), rep: Rep::U, ts }
+            St { s: b.probe(k.drop_key(), "drop_key"), rep: Rep::U, ts, pure: false }
         }
         "kreduce" => {
             let k = b.probe_k(s.group_by(key3), "group_by");
             let k = b.probe_k(k.map(|(_k, x): (&i64, i64)| (x + 1).rem_euclid(MODV)), "keyed-map");
             let k = b.probe_k(k.reduce(|a: &mut i64, x: i64| *a = (*a + x).rem_euclid(MODV)), "keyed-reduce");
             let u = b.probe(k.unkey(), "unkey");
-            St { s: b.probe(u.map(|(k, v): (i64, i64)| (k + 3 * v).rem_euclid(MODV)), "map"), rep: Rep::U, ts }
+            St { s: b.probe(u.map(|(k, v): (i64, i64)| (k + 3 * v).rem_euclid(MODV)), "map"), rep: Rep::U, ts, pure: false }
         }
         "gbcount" => {
             let k = b.probe_k(s.group_by_count(key3), "group_by_count");
             let u = b.probe(k.unkey(), "unkey");
-            St { s: b.probe(u.map(|(k, c): (i64, usize)| k + 3 * c as i64), "map"), rep: Rep::U, ts }
+            St { s: b.probe(u.map(|(k, c): (i64, usize)| k + 3 * c as i64), "map"), rep: Rep::U, ts, pure: false }
         }
         "gbfold" => {
             let k = b.probe_k(
                 s.group_by_fold(key3, 0i64, |a: &mut i64, x: i64| *a = (*a + x).rem_euclid(MODV), |a: &mut i64, x: i64| *a = (*a + x).rem_euclid(MODV)),
                 "group_by_fold",
             );
-            St { s: b.probe(k.drop_key(), "drop_key"), rep: Rep::U, ts }
+            St { s: b.probe(k.drop_key(), "drop_key"), rep: Rep::U, ts, pure: false }
         }
         "gbreduce" => {
             let k = b.probe_k(s.group_by_reduce(key3, |a: &mut i64, x: i64| *a = (*a + x).rem_euclid(MODV)), "group_by_reduce");
-            St { s: b.probe(k.drop_key(), "drop_key"), rep: Rep::U, ts }
+            St { s: b.probe(k.drop_key(), "drop_key"), rep: Rep::U, ts, pure: false }
         }
         "keyby" => {
             let k = b.probe_k(s.key_by(key3), "key_by");
             let k = b.probe_k(k.filter(|(_k, x): &(i64, i64)| x.rem_euclid(5) != 0), "keyed-filter");
             let k = b.probe_k(k.fold(0i64, |a: &mut i64, x: i64| *a = (*a + x).rem_euclid(MODV)), "keyed-fold");
-            St { s: b.probe(k.drop_key(), "drop_key"), rep, ts }
+            St { s: b.probe(k.drop_key(), "drop_key"), rep, ts, pure: false }
         }
         "cwin" => {
             let size = p_usize(w, 1, 3, 1, 6);
@@ -413,7 +451,7 @@ fn apply(b: &mut B, st: St, w: &[String], state: Option<&IterationStateHandle<LS
                 k.window(CountWindow::sliding(size, slide)).fold(0i64, |a: &mut i64, x: i64| *a = (*a + x).rem_euclid(MODV)),
                 "count-window",
             );
-            St { s: b.probe(k.drop_key(), "drop_key"), rep: Rep::U, ts }
+            St { s: b.probe(k.drop_key(), "drop_key"), rep: Rep::U, ts, pure: false }
         }
         "cwinall" => {
             let size = p_usize(w, 1, 3, 1, 6);
@@ -421,13 +459,20 @@ fn apply(b: &mut B, st: St, w: &[String], state: Option<&IterationStateHandle<LS
                 s.window_all(CountWindow::tumbling(size)).fold(0i64, |a: &mut i64, x: i64| *a = (*a + x).rem_euclid(MODV)),
                 "count-window-all",
             );
-            St { s: b.probe(k.drop_key(), "drop_key"), rep: Rep::One, ts }
+            St { s: b.probe(k.drop_key(), "drop_key"), rep: Rep::One, ts, pure: false }
         }
         "etwin" | "etwinall" => {
             let size = p_usize(w, 1, 30, 1, 200) as i64;
             let slide = p_usize(w, 2, size as usize, 1, size as usize) as i64;
             let wk = p_usize(w, 3, 2, 1, 20);
-            let st = add_ts(b, St { s, rep, ts }, wk, true, "add_timestamps");
+            let keep = w.last().map(|x| x == "keep").unwrap_or(false);
+            // a stream whose data elements are all Timestamped keeps its timestamps and watermarks
+            // (whatever the upstream operators made of them); otherwise fresh ones are attached
+            let st = if pure {
+                St { s, rep, ts, pure }
+            } else {
+                add_ts(b, St { s, rep, ts, pure }, wk, (wk % 4) as i64, true, "add_timestamps")
+            };
             let (k, rep2) = if name == "etwin" {
                 let k = b.probe_k(st.s.group_by(key3), "group_by");
                 let k = b.probe_k(
@@ -442,18 +487,37 @@ fn apply(b: &mut B, st: St, w: &[String], state: Option<&IterationStateHandle<LS
                 );
                 (b.probe(k.drop_key(), "drop_key"), Rep::One)
             };
-            St { s: b.probe(k.drop_timestamps(), "drop_timestamps"), rep: rep2, ts: false }
+            if keep {
+                St { s: k, rep: rep2, ts: true, pure: true }
+            } else {
+                St { s: b.probe(k.drop_timestamps(), "drop_timestamps"), rep: rep2, ts: false, pure: false }
+            }
         }
         "reorder" => {
             let wk = p_usize(w, 1, 2, 1, 20);
-            let st = add_ts(b, St { s, rep, ts }, wk, true, "add_timestamps");
+            let keep = w.last().map(|x| x == "keep").unwrap_or(false);
+            let st = if pure {
+                St { s, rep, ts, pure }
+            } else {
+                add_ts(b, St { s, rep, ts, pure }, wk, (wk % 4) as i64, true, "add_timestamps")
+            };
             let r = b.probe(st.s.reorder(), "reorder");
-            St { s: b.probe(r.drop_timestamps(), "drop_timestamps"), rep: st.rep, ts: false }
+            if keep {
+                St { s: r, rep: st.rep, ts: true, pure: true }
+            } else {
+                St { s: b.probe(r.drop_timestamps(), "drop_timestamps"), rep: st.rep, ts: false, pure: false }
+            }
         }
-        "addts" if !in_loop => add_ts(b, St { s, rep, ts }, p_usize(w, 1, 3, 1, 50), false, "add_timestamps"),
-        "dropts" => St { s: b.probe(s.drop_timestamps(), "drop_timestamps"), rep, ts: false },
-        "merge" | "zip" | "join" => binary(b, St { s, rep, ts }, w, state),
-        _ => St { s, rep, ts },
+        "addts" if !in_loop || !ts => {
+            let k = p_usize(w, 1, 3, 1, 50);
+            let late = p_usize(w, 2, 1, 0, 3) as i64;
+            let jit = w.get(3).map(|x| x == "1").unwrap_or(false);
+            add_ts(b, St { s, rep, ts, pure }, k, late, jit, "add_timestamps")
+        }
+        "dropts" => St { s: b.probe(s.drop_timestamps(), "drop_timestamps"), rep, ts: false, pure: false },
+        "ivjoin" => ivjoin(b, St { s, rep, ts, pure }, w, state),
+        "merge" | "zip" | "join" => binary(b, St { s, rep, ts, pure }, w, state),
+        _ => St { s, rep, ts, pure: false },
     }
 }
 
@@ -477,12 +541,12 @@ fn binary(b: &mut B, st: St, w: &[String], state: Option<&IterationStateHandle<L
     };
     // both local join algorithms stop with a panic on Timestamped / Watermark elements
     let st = if name == "join" { b.drop_ts_auto(st) } else { st };
-    let (rep, ts) = (st.rep, st.ts);
+    let (rep, ts, pure) = (st.rep, st.ts, st.pure);
     let mut v = st.s.split(2);
     let r = v.pop().unwrap();
     let l = v.pop().unwrap();
-    let l = St { s: b.probe(l, "split"), rep, ts };
-    let r = St { s: b.probe(r, "split"), rep, ts };
+    let l = St { s: b.probe(l, "split"), rep, ts, pure };
+    let r = St { s: b.probe(r, "split"), rep, ts, pure };
     let mut l = branch(b, l, &ln, state);
     let mut r = branch(b, r, &rn, state);
     match name {
@@ -497,10 +561,13 @@ fn binary(b: &mut B, st: St, w: &[String], state: Option<&IterationStateHandle<L
                 }
             }
             if name == "merge" {
-                St { s: b.probe(l.s.merge(r.s), "merge"), rep: l.rep, ts }
+                {
+                    let (ts2, pure2) = (l.ts || r.ts, l.pure && r.pure);
+                    St { s: b.probe(l.s.merge(r.s), "merge"), rep: l.rep, ts: ts2, pure: pure2 }
+                }
             } else {
                 let z = b.probe(l.s.zip(r.s), "zip");
-                St { s: b.probe(z.map(|(x, y): (i64, i64)| (x + y).rem_euclid(MODV)), "map"), rep: Rep::One, ts }
+                St { s: b.probe(z.map(|(x, y): (i64, i64)| (x + y).rem_euclid(MODV)), "map"), rep: Rep::One, ts, pure: false }
             }
         }
         _ => {
@@ -520,7 +587,7 @@ fn binary(b: &mut B, st: St, w: &[String], state: Option<&IterationStateHandle<L
                     (_, "inner") => b.probe(b_map_in(j.local_hash().inner()), "join(bcast,hash,inner)+map"),
                     _ => b.probe(j.local_hash().left().map(move |(_k, (x, y)): (i64, (i64, Option<i64>))| (x + o(y)).rem_euclid(MODV)), "join(bcast,hash,left)+map"),
                 };
-                St { s, rep: l.rep, ts }
+                St { s, rep: l.rep, ts, pure: false }
             } else {
                 let j = j.ship_hash();
                 macro_rules! fin {
@@ -541,10 +608,36 @@ fn binary(b: &mut B, st: St, w: &[String], state: Option<&IterationStateHandle<L
                     (_, "left") => fin!(j.local_hash().left(), "join(hash,hash,left)", fl),
                     _ => fin!(j.local_hash().outer(), "join(hash,hash,outer)", fo),
                 };
-                St { s, rep: Rep::U, ts }
+                St { s, rep: Rep::U, ts, pure: false }
             }
         }
     }
+}
+
+/// `interval_join` (public API) of two branches of a split of a timestamped stream
+fn ivjoin(b: &mut B, st: St, w: &[String], state: Option<&IterationStateHandle<LState>>) -> St {
+    let lo = w.get(1).and_then(|x| x.parse::<i64>().ok()).unwrap_or(-2).clamp(-6, 6);
+    let hi = w.get(2).and_then(|x| x.parse::<i64>().ok()).unwrap_or(2).clamp(lo, 8);
+    const OK: &[&str] = &["map", "filter", "flatmap", "inspect", "shuffle"];
+    let ln = w.get(3).cloned().unwrap_or_default();
+    let rn = w.get(4).cloned().unwrap_or_default();
+    let st = if st.pure { st } else { add_ts(b, st, 2, 1, true, "add_timestamps") };
+    let (rep, ts, pure) = (st.rep, st.ts, st.pure);
+    let mut v = st.s.split(2);
+    let r = v.pop().unwrap();
+    let l = v.pop().unwrap();
+    let mut l = St { s: b.probe(l, "split"), rep, ts, pure };
+    let mut r = St { s: b.probe(r, "split"), rep, ts, pure };
+    if OK.contains(&ln.as_str()) {
+        l = apply(b, l, &[ln], state);
+    }
+    if OK.contains(&rn.as_str()) {
+        r = apply(b, r, &[rn], state);
+    }
+    let l = b.cap(l, 150);
+    let r = b.cap(r, 150);
+    let j = b.probe(l.s.interval_join(r.s, lo, hi), "interval_join");
+    St { s: b.probe(j.map(|(x, y): (i64, i64)| (x + y).rem_euclid(MODV)), "map"), rep: Rep::One, ts: true, pure: false }
 }
 
 fn b_map_in<Op: Operator<Out = (i64, (i64, i64))> + 'static>(s: Stream<Op>) -> Stream<impl Operator<Out = i64>> {
@@ -579,8 +672,11 @@ fn state_stream<Op: Operator<Out = LState> + 'static>(b: &mut B, s: Stream<Op>, 
 }
 
 fn build_loop(b: &mut B, st: St, iterate: bool, max: usize, stop: i64, mode: &str, body: &[Stage]) -> St {
-    // IterationEnd accepts plain items only; loops need an unlimited block in front
-    let mut st = b.drop_ts_auto(st);
+    // loops need an unlimited block in front. IterationEnd accepts plain items only: an `iterate` gets
+    // plain items; a `replay` may get the timestamped stream (Replay stores and replays Timestamped and
+    // Watermark elements: the timestamps restart in every round), its body end drops the timestamps
+    let mut st = if iterate { b.drop_ts_auto(st) } else { st };
+    let (ts_in, pure_in) = (st.ts, st.pure);
     if st.rep != Rep::U {
         st = b.shuffle_auto(st);
     }
@@ -602,7 +698,7 @@ fn build_loop(b: &mut B, st: St, iterate: bool, max: usize, stop: i64, mode: &st
                 let b = &mut *guard;
                 b.path.push(id);
                 let s = b.probe(s, "Replay");
-                let r = build_stages(b, St { s, rep: Rep::U, ts: false }, &body, Some(&h));
+                let r = build_stages(b, St { s, rep: Rep::U, ts: ts_in, pure: pure_in }, &body, Some(&h));
                 let r = b.drop_ts_auto(r);
                 let s = b.probe(r.s.inspect(|_x: &i64| {}), "body-end");
                 b.path.pop();
@@ -613,7 +709,7 @@ fn build_loop(b: &mut B, st: St, iterate: bool, max: usize, stop: i64, mode: &st
             cf,
         );
         *b = cell.take();
-        St { s: state_stream(b, out, id, "replay-state"), rep: Rep::U, ts: false }
+        St { s: state_stream(b, out, id, "replay-state"), rep: Rep::U, ts: false, pure: false }
     } else {
         let (state, items) = st.s.iterate(
             max,
@@ -623,7 +719,7 @@ fn build_loop(b: &mut B, st: St, iterate: bool, max: usize, stop: i64, mode: &st
                 let b = &mut *guard;
                 b.path.push(id);
                 let s = b.probe(s, "Iterate");
-                let r = build_stages(b, St { s, rep: Rep::U, ts: false }, &body, Some(&h));
+                let r = build_stages(b, St { s, rep: Rep::U, ts: false, pure: false }, &body, Some(&h));
                 let mut r = b.drop_ts_auto(r);
                 // the feedback link is an only-one connection into the unlimited Iterate block
                 if r.rep != Rep::U {
@@ -645,13 +741,13 @@ fn build_loop(b: &mut B, st: St, iterate: bool, max: usize, stop: i64, mode: &st
             "items" => {
                 let s = b.probe(state.inspect(|_x: &i64| {}), "before-sink:for_each");
                 s.for_each(|_x: i64| {});
-                St { s: items, rep: Rep::U, ts: false }
+                St { s: items, rep: Rep::U, ts: false, pure: false }
             }
-            "both" => St { s: b.probe(items.merge(state), "merge"), rep: Rep::U, ts: false },
+            "both" => St { s: b.probe(items.merge(state), "merge"), rep: Rep::U, ts: false, pure: false },
             _ => {
                 let s = b.probe(items.inspect(|_x: &i64| {}), "before-sink:for_each");
                 s.for_each(|_x: i64| {});
-                St { s: state, rep: Rep::U, ts: false }
+                St { s: state, rep: Rep::U, ts: false, pure: false }
             }
         }
     };
@@ -679,17 +775,17 @@ fn build(ctx: &StreamContext, run: u64, c: &Case) {
             Some(m) => erase(s.batch_mode(m)),
             None => erase(s),
         };
-        St { s: b.probe(s, "source:par_iter"), rep: Rep::U, ts: false }
+        St { s: b.probe(s, "source:par_iter"), rep: Rep::U, ts: false, pure: false }
     } else {
         let s = ctx.stream_iter(0..n);
         let s = match batch.mode() {
             Some(m) => erase(s.batch_mode(m)),
             None => erase(s),
         };
-        St { s: b.probe(s, "source:iter"), rep: Rep::One, ts: false }
+        St { s: b.probe(s, "source:iter"), rep: Rep::One, ts: false, pure: false }
     };
-    let st = match h.get(5).and_then(|s| s.strip_prefix("ts")).and_then(|k| k.parse::<usize>().ok()) {
-        Some(k) => add_ts(&mut b, st, k, false, "add_timestamps"),
+    let st = match h.get(5).and_then(|s| parse_tsgen(s)) {
+        Some((k, late, jit)) => add_ts(&mut b, st, k, late, jit, "add_timestamps"),
         None => st,
     };
     let mut i = 0;
@@ -733,12 +829,19 @@ fn is_infra(m: &str) -> bool {
     m.contains("failed to bind") || m.contains("address already in use") || m.contains("addrinuse")
 }
 
-fn fmt_seq(v: &[(u8, u32)]) -> String {
+fn fmt_seq(v: &[(u8, i64, u32)]) -> String {
     if v.is_empty() {
         return "-".into();
     }
     v.iter()
-        .map(|(k, n)| if *n == 1 { KINDS[*k as usize].to_string() } else { format!("{}*{n}", KINDS[*k as usize]) })
+        .map(|(k, t, n)| {
+            let tok = if *k == 1 || *k == 2 { format!("{}{t}", KINDS[*k as usize]) } else { KINDS[*k as usize].to_string() };
+            if *n == 1 {
+                tok
+            } else {
+                format!("{tok}*{n}")
+            }
+        })
         .collect::<Vec<_>>()
         .join(",")
 }
@@ -1004,10 +1107,117 @@ fn gen(rng: &mut Rng, i: usize) -> Case {
     c
 }
 
+/// `--ts`: pipelines biased towards timestamps and watermarks (C06): a timestamped source whose
+/// watermarks sit at or just below element timestamps, multi-replica exchanges behind it (the Start
+/// frontier is the minimum over the replicas), event-time windows, reorder, folds, interval joins,
+/// merges, all of it inside `replay` loops too (the replayed timestamps restart in every round).
+impl G<'_> {
+    fn stage_ts(&mut self, depth: usize) {
+        let size = (*self.rng.pick(&[3, 5, 8, 20, 50])).to_string();
+        let slide = (*self.rng.pick(&[1, 2, 5, 8, 50])).to_string();
+        let wk = (*self.rng.pick(&[1, 2, 3, 5])).to_string();
+        let keep = if self.rng.chance(4, 5) { "keep" } else { "drop" };
+        match self.rng.below(40) {
+            0..=5 => {
+                let s = *self.rng.pick(&["map", "filter", "flatmap", "flatmap", "inspect", "richmap"]);
+                self.ops.push(sw(&["s", s]));
+            }
+            6..=10 => self.ops.push(sw(&["s", "shuffle"])),
+            11 => self.ops.push(sw(&["s", "bcast"])),
+            12 | 13 => self.ops.push(sw(&["s", "repl", *self.rng.pick(&["one", "2", "one"])])),
+            14..=17 => {
+                let s = *self.rng.pick(&["fold", "folda", "reduce", "reducea"]);
+                self.ops.push(sw(&["s", s]));
+                self.size = 1;
+            }
+            18..=20 => {
+                let s = *self.rng.pick(&["kfold", "kreduce", "gbfold", "gbreduce", "gbcount", "keyby"]);
+                self.ops.push(sw(&["s", s]));
+            }
+            21..=26 => self.ops.push(sw(&["s", "etwin", &size, &slide, &wk, keep])),
+            27 | 28 => self.ops.push(sw(&["s", "etwinall", &size, "1", &wk, keep])),
+            29..=31 => self.ops.push(sw(&["s", "reorder", &wk, keep])),
+            32 => {
+                let a = self.rng.range(1, 4).to_string();
+                self.ops.push(sw(&["s", "cwin", &a, "1"]));
+            }
+            33 | 34 => {
+                let l = *self.rng.pick(&["id", "map", "filter", "flatmap", "shuffle", "fold"]);
+                let r = *self.rng.pick(&["id", "map", "filter", "shuffle"]);
+                self.ops.push(sw(&["s", "merge", l, r]));
+            }
+            35 => self.ops.push(sw(&["s", "zip", "id", "map"])),
+            36 | 37 => {
+                let lo = self.rng.range(-4, 1).to_string();
+                let hi = self.rng.range(0, 5).to_string();
+                let l = *self.rng.pick(&["id", "map", "filter", "shuffle"]);
+                let r = *self.rng.pick(&["id", "flatmap", "shuffle"]);
+                self.ops.push(sw(&["s", "ivjoin", &lo, &hi, l, r]));
+            }
+            _ if depth == 0 && self.size <= 450 => self.lp_ts(),
+            _ => self.ops.push(sw(&["s", "shuffle"])),
+        }
+    }
+    fn lp_ts(&mut self) {
+        // mostly replay (the only loop a timestamped stream may enter), 1-3 rounds
+        let kind = if self.rng.chance(5, 6) { "replay" } else { "iterate" };
+        let max = self.rng.range(1, 3);
+        self.ops.push(sw(&["loop", kind, &max.to_string(), "9"]));
+        let n = self.rng.range(1, 3);
+        for _ in 0..n {
+            self.stage_ts(1);
+        }
+        self.ops.push(sw(&["endloop", *self.rng.pick(&["state", "items"])]));
+        self.size = 1;
+    }
+}
+
+fn gen_ts(rng: &mut Rng, i: usize) -> Case {
+    let cfg = *rng.pick(&["L1", "L2", "L2", "L3", "L4", "L4", "R1:1", "R2:1", "R1:2", "R2:2"]);
+    let bm = match rng.below(8) {
+        0 | 1 => "def".to_string(),
+        2 => "single".to_string(),
+        3 => "f1".to_string(),
+        4 => "f3".to_string(),
+        _ => format!("a{}:{}", rng.pick(&[1, 2, 4, 8]), rng.range(1, 5)),
+    };
+    let src = if rng.chance(1, 3) { "iter" } else { "par" };
+    let n = match rng.below(10) {
+        0 => 0,
+        1 => 1,
+        2..=5 => rng.range(2, 12),
+        _ => rng.range(40, 300),
+    };
+    // watermark after every k-th element, lateness 0..3, out-of-order timestamps in half of the cases
+    let ts = if rng.chance(9, 10) {
+        format!("ts{}:{}:{}", rng.pick(&[1, 1, 2, 3, 5]), rng.range(0, 3), rng.below(2))
+    } else {
+        "nots".to_string()
+    };
+    let sink = *rng.pick(&["vec", "vec", "vec1", "foreach"]);
+    let mut c = Case::new(&["probe", cfg, &bm, src, &n.to_string(), &ts, sink]);
+    let mut g = G { rng, ops: vec![], size: n };
+    let steps = g.rng.range(1, 5);
+    let loop_at = if i % 4 == 0 { g.rng.range(0, steps - 1) } else { -1 };
+    for k in 0..steps {
+        if k == loop_at {
+            g.lp_ts();
+        } else {
+            g.stage_ts(0);
+        }
+    }
+    c.ops = g.ops;
+    if n >= 100 && f18_region(&c) && rng.chance(1, 2) {
+        c.header[2] = "def".into();
+    }
+    c
+}
+
 // ------------------------------------------------------------------------------------------------
 
 fn main() {
     let args = parse_args();
+    let ts_mode = args.extra.iter().any(|a| a == "--ts");
     std::panic::set_hook(Box::new(|info| {
         let msg = if let Some(s) = info.payload().downcast_ref::<String>() {
             s.clone()
@@ -1030,7 +1240,11 @@ fn main() {
             (0..args.cases)
                 .map(|i| {
                     let mut r = rng.fork();
-                    (format!("probe-{}-{i}", args.seed), gen(&mut r, i))
+                    if ts_mode {
+                        (format!("probe-ts-{}-{i}", args.seed), gen_ts(&mut r, i))
+                    } else {
+                        (format!("probe-{}-{i}", args.seed), gen(&mut r, i))
+                    }
                 })
                 .collect()
         }
